@@ -30,6 +30,11 @@ def cases(tier):
         "10 HCIRCLE(1,2),3,,INT(B)\n20 HCIRCLE(1,2),3", "10 CLS INT(A)\n20 CLS", "10 CLS", "10 HSCREEN:HCLS:HCOLOR INT(A)",
         "10 HLINE-(INT(A),2),PSET\n20 HLINE-(3,4),PSET", "10 PRINT@INT(A),STR$(B)\n20 PRINT@1,\"X\"", "10 A=JOYSTK(0)\n20 B=JOYSTK(1)",
     ]
+    # process-wide interpreter state (recursion limit, warnings filters, regex caches): programs with very long lines next to
+    # programs nested so deeply that the tool refuses them or runs out of stack - each must answer the same in every history
+    fixed += ["10 REM " + "R" * 3000, "10 A$=\"" + "S" * 2500 + "\"", "10 " + ":".join(["A=A+1"] * 400), "10 PRINT " + ";".join(["A"] * 500)]
+    fixed += ["10 A=" + "(" * d + "1" + ")" * d for d in (20, 40, 55, 65, 70, 75, 80, 90, 120, 200)]
+    fixed += ["10 A=" + "ABS(" * d + "1" + ")" * d for d in (30, 60, 100)] + ["10 A=" + "-" * 150 + "1", "10 A=1" + "+1" * 600]
     progs = fixed + [G.Gen(r, max_depth=2).program(r.choice([2, 4, 6])) for _ in range(30 if quick else 200)]
     for t in progs:
         # same procedure name and storage for all: a bank shared between conversions would show
